@@ -13,6 +13,7 @@ from vf.simk.world import World, oserr
 
 ID = "C15"
 LEVEL = "fault_enumeration"
+ALT_MOUNT = True          # run once more with procfs mounted at /hostproc (vf/child.py)
 EPS = 1e-6
 POLL_MAX = 0.04
 BUDGET = 3000
